@@ -222,7 +222,21 @@ class Canon:
             out.append(item(p))
             if not p.opt(","):
                 break
-        p.lit("]"); p.lit("}")
+        p.lit("]")
+        if p.opt(","):
+            # further (private, bookkeeping) fields of `Storage` are no part of the lifted module's content: skip them,
+            # so that a representation change of the container that keeps `data` is not reported as a C18 difference
+            depth = 0
+            while p.i < len(p.s):
+                ch = p.s[p.i]
+                if ch in "{[(":
+                    depth += 1
+                elif ch in "}])":
+                    if depth == 0:
+                        break
+                    depth -= 1
+                p.i += 1
+        p.lit("}")
         return out
 
     def module(self, resp):
